@@ -10,7 +10,9 @@ import os
 import pathlib
 import typing
 
+import nunavut._namespace
 from nunavut._namespace import build_namespace_tree
+from xh import permset
 from nunavut.lang import LanguageContextBuilder
 from nunavut.lang._common import IncludeGenerator
 
@@ -24,7 +26,16 @@ pathlib.Path.resolve = lambda self, strict=False: self          # type: ignore
 LCTX = LanguageContextBuilder(include_experimental_languages=True).set_target_language(LANG).create()
 _L = LCTX.get_target_language()
 _RES = "if" if LANG != "py" else "str"
-NSS = [ROOTNAME, ROOTNAME + ".a.b", ROOTNAME + "." + _RES] + ([ROOTNAME + ".a", ROOTNAME + ".a.b.c"] if WIDE else [])
+# R.ab next to R.a(.b): sibling namespaces one of whose names is a prefix of the other
+NSS = [ROOTNAME, ROOTNAME + ".a.b", ROOTNAME + "." + _RES, ROOTNAME + ".ab"] + ([ROOTNAME + ".a", ROOTNAME + ".a.b.c"] if WIDE else [])
+# The order in which a namespace's children are enumerated is hash-seed dependent.  In processes started with C11_PERM=1 *outside CrossHair*
+# the module's `set` is a set whose iteration order is insertion order or its reverse (`rev`): the NATIVE_SMOKE entries below enumerate both
+# orders concretely over the types of the prefix-named sibling namespaces.  Under CrossHair the class is not injected (interpreting it under
+# tracing did not finish 12 combinations in 20 minutes) and `rev` is pinned to False: a concrete run, labelled as such in the evidence.
+PERM = os.environ.get("C11_PERM", "0") == "1"
+UNDER_XH = os.environ.get("VERIF_UNDER_CROSSHAIR") == "1"
+if PERM and os.environ.get("VERIF_UNDER_CROSSHAIR") != "1":
+    permset.inject(nunavut._namespace)
 NAMES = ["A", "A_1"] + (["B"] if WIDE else [])
 EXT = _L.extension
 
@@ -72,11 +83,13 @@ def _expected_rel(t: Ty) -> str:
     return "/".join(comps + [f"{_strop(t.short_name)}_{t.version.major}_{t.version.minor}{EXT}"])
 
 
-def tree(sel: typing.List[typing.Tuple[int, int, int]]) -> bool:
+def tree(sel: typing.List[typing.Tuple[int, int, int]], rev: bool) -> bool:
     """
     pre: 1 <= len(sel) <= MAXK
     pre: all(0 <= a < len(NSS) and 0 <= b < len(NAMES) and 0 <= c <= 1 for a, b, c in sel)
     pre: FIRST < 0 or sel[0][0] * len(NAMES) * 2 + sel[0][1] * 2 + sel[0][2] == FIRST
+    pre: not rev or (PERM and not UNDER_XH)
+    pre: (not PERM) or all(a in (1, 3) and b == 0 and c == 0 for a, b, c in sel)
     post: _
     """
     types: typing.List[Ty] = []
@@ -84,6 +97,7 @@ def tree(sel: typing.List[typing.Tuple[int, int, int]]) -> bool:
         t = Ty(NSS[a], NAMES[b], c, 0)
         if t not in types:
             types.append(t)
+    permset.Order.rev = rev               # children enumerated in insertion order or in the reverse order (<= 2 children per node at this bound)
     root = build_namespace_tree(types, "/in/" + ROOTNAME, OUT, LCTX)
     alltypes = list(root.get_all_datatypes())
     # each type exactly once
@@ -138,6 +152,46 @@ def tree(sel: typing.List[typing.Tuple[int, int, int]]) -> bool:
 
 
 MAXK = int(os.environ.get("C11_K", "2"))
+# executed natively as well when C11_PERM=1 (see above): every selection of <= 2 types from R.a.b / R.ab, both enumeration orders
+NATIVE_SMOKE = {"tree": [([list(x) for x in sel], rev) for rev in (False, True)
+                         for sel in ([(1, 0, 0)], [(3, 0, 0)], [(1, 0, 0), (3, 0, 0)], [(3, 0, 0), (1, 0, 0)])]} if PERM else {}
+
+
+# ------------------------------------------------------------------------------------------------ stropping switched off by configuration
+_LCTX_OFF = (LanguageContextBuilder(include_experimental_languages=True).set_target_language(LANG)
+             .set_target_language_configuration_override("enable_stropping", False).create())
+_L_OFF = _LCTX_OFF.get_target_language()
+
+
+def generated_is_referenced_without_stropping(sel: typing.List[typing.Tuple[int, int, int]]) -> bool:
+    """
+    pre: 1 <= len(sel) <= 2
+    pre: all(0 <= a < len(NSS) and 0 <= b < len(NAMES) and 0 <= c <= 1 for a, b, c in sel)
+    post: _
+    """
+    # with enable_stropping: false in the language configuration the type files keep their DSDL names; whatever the spelling, the file a type
+    # is generated to is the file other types refer to, distinct types get distinct files, nothing leaves the output directory.
+    # (The namespace-node clauses are not asserted in this mode: Namespace.__init__ strops folder names unconditionally -- recorded as an
+    # observation in DESIGN.md, no listed property speaks about it.)
+    types: typing.List[Ty] = []
+    for a, b, c in sel:
+        t = Ty(NSS[a], NAMES[b], c, 0)
+        if t not in types:
+            types.append(t)
+    root = build_namespace_tree(types, "/in/" + ROOTNAME, OUT, _LCTX_OFF)
+    outn = pathlib.Path(OUT).as_posix()
+    alltypes = list(root.get_all_datatypes())
+    if sorted(t.key() for t, _ in alltypes) != sorted(t.key() for t in types):
+        return False
+    paths = []
+    for t, p in alltypes:
+        pp = p.as_posix()
+        if not pp.startswith(outn + "/"):
+            return False
+        if IncludeGenerator.make_path(t, _L_OFF, EXT).as_posix() != pp[len(outn) + 1:]:
+            return False
+        paths.append(pp)
+    return len(set(paths)) == len(paths)
 
 
 # ------------------------------------------------------------------------------------------------ referenced == generated, real types
